@@ -17,23 +17,7 @@ flt = mod("jsonpath.filter")
 sel = mod("jsonpath.selectors")
 
 
-def write_items(trace):
-    out = []
-    for item in trace:
-        if item[0] in ("write", "mutate"):
-            out.append(item)
-        elif item[0] == "loop":
-            for alt in item[3]:
-                out.extend(write_items(alt["trace"]))
-    return out
-
-
-def no_foreign_writes(o):
-    """Postcondition: the only stores are into objects allocated by this call (and match.children)."""
-    bad = [w for w in write_items(o.trace) if not (w[0] == "mutate" and w[2] == "FRESH")]
-    if bad:
-        return [("frame", [], z3.BoolVal(False), f"writes outside the frame: {bad[:3]}")]
-    return [("frame", [], z3.BoolVal(True), "no store into DOC / CTX / QUERY objects on this path")]
+from contracts.common import no_foreign_writes, write_items  # noqa: E402,F401
 
 
 def _register_selector_frame(clsname, mk):
